@@ -163,7 +163,7 @@ def validate(traces):
 
 def _new_res():
     return {"traces": 0, "evaluations": 0, "clauses": {}, "bad": [], "drift": [], "ndrift": 0, "judged": 0, "samples": [],
-            "modes": {}, "nontrivial": 0}
+            "modes": {}, "nontrivial": set()}
 
 
 def judge(traces, res):
@@ -183,7 +183,7 @@ def judge(traces, res):
                 res["judged"] += 1
                 res["modes"][facts.get("mode", "?")] = res["modes"].get(facts.get("mode", "?"), 0) + 1
                 if facts.get("hostkind") != "name" or facts.get("port") != "absent" or facts.get("userinfo") or facts.get("fragment"):
-                    res["nontrivial"] += 1
+                    res["nontrivial"].add(text(ob["s"]) + " via " + facts.get("mode", "?"))
             for c in clauses or ["ok"]:
                 res["clauses"][c] = res["clauses"].get(c, 0) + 1
             for c in clauses:
@@ -385,11 +385,9 @@ def run(rep):
     for m in ("direct", "forward", "tunnel"):
         if not modes.get(m):
             raise tlc.MachineryError(f"mode {m} never exercised - vacuous")
-    nt = 0
     for o in outs + rnd:
         _absorb(rep, findings, o, tally, seen_bad)
-        nt += o["nontrivial"]
-    rep.nontrivial.update(range(nt))
+        rep.nontrivial.update(o["nontrivial"])
     rep.extra["verdict_tally"] = tally
     rep.extra["modes_sent"] = modes
     rep.extra["expected_mismatch_python_side"] = sum(o["expected_mismatch"] for o in outs)
